@@ -21,6 +21,7 @@ type SerialStats struct {
 	Steps        int
 	Kinds        map[string]int
 	PingsUnacked int // ping replies whose processing could not be observed within the watchdog
+	SelfRecords  int // records with the local node's id fed to add / track-request steps
 	Swaps        int // delete + re-add of an entry performed while its liveness check was in flight
 	Trace        []string
 }
@@ -150,6 +151,13 @@ func RunSerial(rng *rand.Rand, nSteps int, obs Observer) (SerialStats, error) {
 					i = victim
 				}
 				r := pool.Rec(i, rng)
+				if rng.Intn(40) == 0 {
+					// a record that carries the local node's own id (peers do report us back to ourselves)
+					r.ID = d.Self.ID()
+					r.Node = pnode.NullNode(r.ID, r.IP, r.Port, r.Seq)
+					stats.SelfRecords++
+					return r
+				}
 				if old, ok := lastRec[r.ID]; ok && rng.Intn(3) != 0 {
 					// mostly keep the endpoint, sometimes bump only the sequence number
 					r = Rec{ID: old.ID, Seq: old.Seq, IP: old.IP, Port: old.Port}
